@@ -211,6 +211,24 @@ class Check:
                 raise Infra(f"driver error on op {q.get('op')}: {r['error']}")
         return res
 
+    def guard(self, case, fn, *args, **kw):
+        """run one case; an exception raised from inside the implementation under test (innermost frame in the repo) is a
+        failure of the property on that case, anything else is an infrastructure error and propagates"""
+        try:
+            return fn(*args, **kw)
+        except Infra:
+            raise
+        except Exception as ex:
+            tb = traceback.extract_tb(ex.__traceback__)
+            repo = os.path.realpath(REPO)
+            if tb and os.path.realpath(tb[-1].filename).startswith(repo + os.sep):
+                where = f"{os.path.relpath(tb[-1].filename, repo)}:{tb[-1].lineno} in {tb[-1].name}"
+                self.fail("the implementation completes on an input inside the property's domain",
+                          f"unexpected {type(ex).__name__}: {str(ex)[:160]} at {where}", case)
+                self.evaluations += 1
+                return None
+            raise
+
     # ------------------------------------------------------------------ reporting
     def fail(self, clause, detail, case, signature=None):
         """the property itself fails on the real code for this case"""
